@@ -588,8 +588,25 @@ func nttScenario(N int, q uint64, cls string, rt ring.Type, tier string) engine.
 		if tier != "thorough" && N > 16 {
 			step = 3
 		}
-		for ai := 0; ai < nm; ai += step {
+		ais, bis := []int{}, []int{}
+		if N > 128 {
+			// large degrees: the schoolbook reference is O(N²) per product — a fixed handful of pairs
+			// (low / high / middle monomials with coefficients 1, q-1, q/2 against the dense extremes)
+			ais = []int{0, 1, N - 1, N + N/2, 2*N + 3}
+			for bi := 3 * N; bi < 3*N+6; bi++ {
+				bis = append(bis, bi)
+			}
+			bis = append(bis, 1, N-1)
+		} else {
+			for ai := 0; ai < nm; ai += step {
+				ais = append(ais, ai)
+			}
 			for bi := 0; bi < len(fam); bi += step {
+				bis = append(bis, bi)
+			}
+		}
+		for _, ai := range ais {
+			for _, bi := range bis {
 				a, b := fam[ai], fam[bi]
 				var want []uint64
 				if rt == ring.Standard {
